@@ -1,3 +1,3 @@
 SPECIFICATION GenSpec
-CONSTANTS Kinds = {"K1"}  Ids = {1}  Ctrls = {"w", "d"}  Cfg <- CfgA  Alt <- AltNoneWD  Cached = {}  MaxWrites = 7  MaxFaults = 1  MapTo <- MapSame
+CONSTANTS Kinds = {"K1"}  Ids = {1}  Ctrls = {"w", "d"}  Cfg <- CfgA  Alt <- AltNoneWD  Cached = {}  MaxWrites = 7  MaxFaults = 1  Noops = TRUE  MapTo <- MapSame
 CHECK_DEADLOCK FALSE
